@@ -338,3 +338,35 @@ def ob_tree_leaves_input_alone(o1: int, o2: int, o3: int, k: int, tup: bool) -> 
 OBLIGATIONS.append(Ob('tree_leaves_input_alone', ob_tree_leaves_input_alone, ['0 <= o1 < 6', 'o2 == 0', 'o3 == 0', '0 <= k < %d' % len(TREE_SRCS)], timeout=tier(200, 600), path_timeout=60,
                       data='-', selectors='dtml-tree templates %r over a root whose three children (each with two children) come in a selected order, list or tuple; rendered twice with expand_all' % TREE_SRCS,
                       stubs='runs untraced once the selectors are fixed on the path'))
+
+
+# ---------------------------------------------------------------- wave 4: restored / copied templates are independent objects
+def ob_restored_independent(o1: int, o2: int, o3: int, o4: int) -> bool:
+    """templates WITHOUT defaults, restored from pickles / deep-copied / freshly built: setting a default or a variable on one of them
+    (default(), var(), munge with a mapping) never shows in another one"""
+    ops = [pick(o, 6) for o in (o1, o2, o3, o4)]
+    with NoTracing():
+        src = '<dtml-var greeting missing="-">|<dtml-var who missing="-">'
+        ts = [pickle.loads(pickle.dumps(HTML(src))), copy.deepcopy(HTML(src)), HTML(src), pickle.loads(pickle.dumps(String('%(greeting missing="-")s|%(who missing="-")s')))]
+        model = [dict() for _ in ts]
+        for n, op in enumerate(ops):
+            i = op % 4 if op < 4 else (n % 4)
+            if op < 4:
+                ts[i].default(greeting='Hello%d' % n) if n % 2 == 0 else ts[i].var(who='W%d' % n)
+                if n % 2 == 0:
+                    model[i]['greeting'] = 'Hello%d' % n
+                else:
+                    model[i]['who'] = 'W%d' % n
+            elif op == 4:
+                ts[i] = pickle.loads(pickle.dumps(ts[i]))
+            else:
+                ts[i] = copy.deepcopy(ts[i])
+            for j, t in enumerate(ts):
+                if t() != model[j].get('greeting', '-') + '|' + model[j].get('who', '-'):
+                    return False
+        return True
+
+
+OBLIGATIONS.append(Ob('restored_templates_independent', ob_restored_independent, ['0 <= o%d < 6' % i for i in (1, 2, 3, 4)], timeout=tier(250, 900), path_timeout=60,
+                      data='-', selectors='four templates without defaults (unpickled HTML, deep-copied HTML, fresh HTML, unpickled String); histories of 4 operations '
+                      '(default()/var() on template i, pickle round trip, deep copy); all four rendered after every step', stubs='runs untraced once the selectors are fixed on the path'))
